@@ -1,8 +1,1026 @@
+//! C05 — tombstone lattices never resurrect deleted items.
+//!
+//! Real code: `SetUnionWithTombstones` / `MapUnionWithTombstones` with the three tombstone backends of
+//! `lattices::tombstone` (`HashSet`, `RoaringTombstoneSet`, `FstTombstoneSet<String>`).
+//! Workload: merge histories ("plans") over small replica states `(live ⊆ D, tombs ⊆ D)`; after every merge
+//! `as_reveal_ref()` is read back into index space and judged by a plain BTreeMap/BTreeSet model.
+//!
+//! Model (from the type docs: "union both sets, then set = set − tombstones"; map values merge key-wise,
+//! bottom values are invisible):
+//!   tombs(S) = ⋃ tombs_i,   live(S)[k] = ⊔ { v_i[k] } for k ∉ tombs(S)   (S = set of replicas merged so far).
+
+use std::cmp::Ordering;
+use std::collections::{BTreeMap, BTreeSet, HashMap, HashSet};
+use std::fmt::Debug;
+use std::hash::Hash;
+
+use lattices::cc_traits::Len;
+use lattices::collections::{EmptyMap, EmptySet, SingletonMap, SingletonSet};
+use lattices::map_union_with_tombstones::MapUnionWithTombstones;
+use lattices::set_union::SetUnionHashSet;
+use lattices::set_union_with_tombstones::SetUnionWithTombstones;
+use lattices::tombstone::{FstTombstoneSet, RoaringTombstoneSet, TombstoneSet};
+use lattices::{IsBot, LatticeFrom, Max, Merge};
+use vcommon::{Args, Reporter, Rng, Tier, Value, catch, hash_of, json};
+
+const ENGINE: &str = "mon_tomb";
+const MAXD: usize = 8;
+
+// ---------------------------------------------------------------------------------------------
+// Item domains: index 0..8 <-> concrete item. The first three are the "tiny" domain.
+
+const U64S: [u64; MAXD] = [0, 7, (1 << 32) + 7, u64::MAX, 1, 65_536, 1 << 32, u64::MAX - 1];
+const STRS: [&str; MAXD] = ["a", "b", "c", "", "ab", "abc", "ba", "\u{e9}"];
+
+trait Item: Clone + Default + Eq + Hash + Ord + Debug + 'static {
+    const INAME: &'static str;
+    fn of(i: usize) -> Self;
+    fn index(&self) -> Option<usize>;
+}
+impl Item for u64 {
+    const INAME: &'static str = "u64";
+    fn of(i: usize) -> Self {
+        U64S[i]
+    }
+    fn index(&self) -> Option<usize> {
+        U64S.iter().position(|x| x == self)
+    }
+}
+impl Item for String {
+    const INAME: &'static str = "string";
+    fn of(i: usize) -> Self {
+        STRS[i].to_string()
+    }
+    fn index(&self) -> Option<usize> {
+        STRS.iter().position(|x| x == self)
+    }
+}
+
+fn bits(mask: u8) -> impl Iterator<Item = usize> {
+    (0..MAXD).filter(move |i| mask >> i & 1 == 1)
+}
+fn items<I: Item>(mask: u8) -> impl Iterator<Item = I> {
+    bits(mask).map(I::of)
+}
+
+// ---------------------------------------------------------------------------------------------
+// Tombstone backends
+
+trait Tomb<I: Item>: TombstoneSet<I> + Clone + FromIterator<I> + IntoIterator<Item = I> + 'static {
+    const TNAME: &'static str;
+}
+impl<I: Item> Tomb<I> for HashSet<I> {
+    const TNAME: &'static str = "hashset";
+}
+impl Tomb<u64> for RoaringTombstoneSet {
+    const TNAME: &'static str = "roaring";
+}
+impl Tomb<String> for FstTombstoneSet<String> {
+    const TNAME: &'static str = "fst";
+}
+
+/// Read a tombstone set back into index space through *all three* of its read paths (iteration, `len`,
+/// `contains`); they must tell the same story.
+fn obs_tombs<I: Item, T: Tomb<I>>(t: &T) -> Result<BTreeSet<usize>, String> {
+    let mut out = BTreeSet::new();
+    let mut n = 0usize;
+    for it in t.clone().into_iter() {
+        n += 1;
+        match it.index() {
+            Some(i) => {
+                if !out.insert(i) {
+                    return Err(format!("tombstone iteration yields {it:?} twice"));
+                }
+            }
+            None => return Err(format!("tombstone set holds {it:?}, which was never inserted")),
+        }
+    }
+    let l = Len::len(t);
+    if l != n {
+        return Err(format!("tombstone len()={l} but iteration yields {n} items"));
+    }
+    for i in 0..MAXD {
+        let c = TombstoneSet::contains(t, &I::of(i));
+        if c != out.contains(&i) {
+            return Err(format!("tombstone contains({:?})={c} but iteration says {}", I::of(i), !c));
+        }
+    }
+    Ok(out)
+}
+
+// ---------------------------------------------------------------------------------------------
+// Map values: a 2-bit code per value. Max<u8>: the number itself (join = max, bottom = 0);
+// SetUnion<HashSet<u8>>: bitmask over elements {0,1} (join = or, bottom = 0).
+
+#[derive(Clone, Copy, Debug, PartialEq, Eq, Hash)]
+enum VKind {
+    Unit, // set variant: every live item carries 1
+    Max,
+    SetU,
+}
+fn vjoin(k: VKind, a: u8, b: u8) -> u8 {
+    match k {
+        VKind::Unit | VKind::Max => a.max(b),
+        VKind::SetU => a | b,
+    }
+}
+fn kind_name(k: VKind) -> &'static str {
+    match k {
+        VKind::Unit => "set",
+        VKind::Max => "map-max",
+        VKind::SetU => "map-setunion",
+    }
+}
+fn kind_of_name(s: &str) -> Option<VKind> {
+    [VKind::Unit, VKind::Max, VKind::SetU].into_iter().find(|k| kind_name(*k) == s)
+}
+
+trait Val: Clone + Default + 'static + Merge<Self> + LatticeFrom<Self> + IsBot + PartialOrd + PartialEq {
+    const KIND: VKind;
+    fn of(code: u8) -> Self;
+    fn code(&self) -> Option<u8>;
+}
+impl Val for Max<u8> {
+    const KIND: VKind = VKind::Max;
+    fn of(code: u8) -> Self {
+        Max::new(code)
+    }
+    fn code(&self) -> Option<u8> {
+        let c = *self.as_reveal_ref();
+        (c < 4).then_some(c)
+    }
+}
+impl Val for SetUnionHashSet<u8> {
+    const KIND: VKind = VKind::SetU;
+    fn of(code: u8) -> Self {
+        SetUnionHashSet::new((0..2u8).filter(|b| code >> b & 1 == 1).collect())
+    }
+    fn code(&self) -> Option<u8> {
+        let mut c = 0;
+        for &e in self.as_reveal_ref().iter() {
+            if e > 1 {
+                return None;
+            }
+            c |= 1 << e;
+        }
+        Some(c)
+    }
+}
+
+// ---------------------------------------------------------------------------------------------
+// Replica states (inputs), observations, model
+
+/// One replica state over the index domain. `vals[i]` is the value code of live item `i` (1 for sets).
+#[derive(Clone, Copy, Debug, PartialEq, Eq, Hash, PartialOrd, Ord)]
+struct St {
+    live: u8,
+    tombs: u8,
+    vals: [u8; MAXD],
+}
+impl St {
+    /// The documented invariant: no item both in `set`/`map` and in `tombstones`.
+    fn valid(&self) -> bool {
+        self.live & self.tombs == 0
+    }
+    fn json(&self) -> Value {
+        json!({
+            "live": bits(self.live).map(|i| json!([i, self.vals[i]])).collect::<Vec<_>>(),
+            "tombs": bits(self.tombs).collect::<Vec<_>>(),
+        })
+    }
+    fn from_json(v: &Value) -> St {
+        let mut st = St { live: 0, tombs: 0, vals: [0; MAXD] };
+        for e in v["live"].as_array().expect("live") {
+            let i = e[0].as_u64().unwrap() as usize;
+            st.live |= 1 << i;
+            st.vals[i] = e[1].as_u64().unwrap() as u8;
+        }
+        for e in v["tombs"].as_array().expect("tombs") {
+            st.tombs |= 1 << e.as_u64().unwrap();
+        }
+        st
+    }
+    /// Items that are deleted in this replica: tombstoned and not live.
+    fn dead(&self) -> u8 {
+        self.tombs & !self.live
+    }
+}
+
+/// What `as_reveal_ref()` shows, in index space (raw: bottom-valued map entries included).
+#[derive(Clone, Debug, PartialEq, Eq, Hash)]
+struct Obs {
+    live: BTreeMap<usize, u8>,
+    tombs: BTreeSet<usize>,
+}
+impl Obs {
+    /// Live contents with bottom-valued entries dropped (the docs/tests treat them as invisible).
+    fn norm_live(&self) -> BTreeMap<usize, u8> {
+        self.live.iter().filter(|(_, v)| **v != 0).map(|(k, v)| (*k, *v)).collect()
+    }
+    fn json(&self) -> Value {
+        json!({"live": self.live.iter().map(|(k, v)| json!([k, v])).collect::<Vec<_>>(), "tombs": self.tombs})
+    }
+}
+
+/// Abstract lattice element (normalised).
+#[derive(Clone, Debug, PartialEq, Eq)]
+struct M {
+    live: BTreeMap<usize, u8>,
+    tombs: BTreeSet<usize>,
+}
+
+/// The model of "all replicas in `idx` merged": live = ⋃live − ⋃tombs (values joined), tombs = ⋃tombs.
+fn model_of(kind: VKind, states: &[St], idx: &BTreeSet<usize>) -> M {
+    let mut tombs = BTreeSet::new();
+    let mut live: BTreeMap<usize, u8> = BTreeMap::new();
+    for &r in idx {
+        tombs.extend(bits(states[r].tombs));
+        for i in bits(states[r].live) {
+            let e = live.entry(i).or_insert(0);
+            *e = vjoin(kind, *e, states[r].vals[i]);
+        }
+    }
+    live.retain(|k, v| *v != 0 && !tombs.contains(k));
+    M { live, tombs }
+}
+
+fn model_le(kind: VKind, a: &St, b: &St) -> bool {
+    // a ≤ b  ⇔  a ⊔ b = b   (Merge docs: merge returning false means `other` came before `self`)
+    let sts = [*a, *b];
+    model_of(kind, &sts, &[0, 1].into()) == model_of(kind, &sts, &[1].into())
+}
+
+// ---------------------------------------------------------------------------------------------
+// Implementations under test
+
+trait Imp: Sized {
+    fn name() -> String;
+    fn build(st: &St) -> Self;
+    fn merge_same(&mut self, other: Self) -> bool;
+    /// Merge a freshly built `other` in a different representation (`Merge<Other>` is generic):
+    /// alt 1 = Vec-backed, alt 2 = singleton/empty "delta" types when the state fits, else Vec.
+    fn merge_alt(&mut self, st: &St, alt: u8) -> bool;
+    fn observe(&self) -> Result<Obs, String>;
+}
+
+struct SetF<I, T>(SetUnionWithTombstones<HashSet<I>, T>);
+impl<I: Item, T: Tomb<I>> Imp for SetF<I, T> {
+    fn name() -> String {
+        format!("set/{}-{}", T::TNAME, I::INAME)
+    }
+    fn build(st: &St) -> Self {
+        SetF(SetUnionWithTombstones::new(items::<I>(st.live).collect(), items::<I>(st.tombs).collect()))
+    }
+    fn merge_same(&mut self, other: Self) -> bool {
+        self.0.merge(other.0)
+    }
+    fn merge_alt(&mut self, st: &St, alt: u8) -> bool {
+        let live: Vec<I> = items::<I>(st.live).collect();
+        let tombs: Vec<I> = items::<I>(st.tombs).collect();
+        if alt == 2 && live.is_empty() && tombs.len() == 1 {
+            return self.0.merge(SetUnionWithTombstones::new(EmptySet::<I>::default(), SingletonSet(tombs[0].clone())));
+        }
+        if alt == 2 && tombs.is_empty() && live.len() == 1 {
+            return self.0.merge(SetUnionWithTombstones::new(SingletonSet(live[0].clone()), EmptySet::<I>::default()));
+        }
+        self.0.merge(SetUnionWithTombstones::new(live, tombs))
+    }
+    fn observe(&self) -> Result<Obs, String> {
+        let (s, t) = self.0.as_reveal_ref();
+        let mut live = BTreeMap::new();
+        for it in s.iter() {
+            match it.index() {
+                Some(i) => {
+                    live.insert(i, 1u8);
+                }
+                None => return Err(format!("live set holds {it:?}, which was never inserted")),
+            }
+        }
+        Ok(Obs { live, tombs: obs_tombs::<I, T>(t)? })
+    }
+}
+
+struct MapF<I, T, V>(MapUnionWithTombstones<HashMap<I, V>, T>);
+impl<I: Item, T: Tomb<I>, V: Val> Imp for MapF<I, T, V> {
+    fn name() -> String {
+        format!("{}/{}-{}", kind_name(V::KIND), T::TNAME, I::INAME)
+    }
+    fn build(st: &St) -> Self {
+        MapF(MapUnionWithTombstones::new(
+            bits(st.live).map(|i| (I::of(i), V::of(st.vals[i]))).collect(),
+            items::<I>(st.tombs).collect(),
+        ))
+    }
+    fn merge_same(&mut self, other: Self) -> bool {
+        self.0.merge(other.0)
+    }
+    fn merge_alt(&mut self, st: &St, alt: u8) -> bool {
+        let live: Vec<(I, V)> = bits(st.live).map(|i| (I::of(i), V::of(st.vals[i]))).collect();
+        let tombs: Vec<I> = items::<I>(st.tombs).collect();
+        if alt == 2 && live.is_empty() && tombs.len() == 1 {
+            return self.0.merge(MapUnionWithTombstones::new(EmptyMap::<I, V>::default(), SingletonSet(tombs[0].clone())));
+        }
+        if alt == 2 && tombs.is_empty() && live.len() == 1 {
+            let (k, v) = live[0].clone();
+            return self.0.merge(MapUnionWithTombstones::new(SingletonMap(k, v), EmptySet::<I>::default()));
+        }
+        self.0.merge(MapUnionWithTombstones::new(live, tombs))
+    }
+    fn observe(&self) -> Result<Obs, String> {
+        let (m, t) = self.0.as_reveal_ref();
+        let mut live = BTreeMap::new();
+        for (k, v) in m.iter() {
+            let Some(i) = k.index() else {
+                return Err(format!("map holds key {k:?}, which was never inserted"));
+            };
+            let Some(c) = v.code() else {
+                return Err(format!("map value at {k:?} holds data that was never inserted"));
+            };
+            if v.is_bot() != (c == 0) {
+                return Err(format!("is_bot() of the value at {k:?} contradicts its contents"));
+            }
+            live.insert(i, c);
+        }
+        Ok(Obs { live, tombs: obs_tombs::<I, T>(t)? })
+    }
+}
+
+// ---------------------------------------------------------------------------------------------
+// Plans and traces
+
+/// One merge: `slot[dst].merge(slot[src])`; `alt` picks the representation of a never-merged `src`.
+#[derive(Clone, Copy, Debug, PartialEq, Eq, Hash)]
+struct Op {
+    dst: usize,
+    src: usize,
+    alt: u8,
+}
+type Plan = Vec<Op>;
+
+fn seq_plan(perm: &[usize], alts: &[u8]) -> Plan {
+    (1..perm.len()).map(|k| Op { dst: perm[0], src: perm[k], alt: alts[(k - 1) % alts.len()] }).collect()
+}
+/// Pairwise-then-combine: (p0⊔p1), (p2⊔p3), …, then fold the partial results.
+fn tree_plan(perm: &[usize], alts: &[u8]) -> Plan {
+    let mut ops = vec![];
+    let mut heads = vec![];
+    let mut k = 0;
+    for c in perm.chunks(2) {
+        if c.len() == 2 {
+            ops.push(Op { dst: c[0], src: c[1], alt: alts[k % alts.len()] });
+            k += 1;
+        }
+        heads.push(c[0]);
+    }
+    for h in heads.iter().skip(1) {
+        ops.push(Op { dst: heads[0], src: *h, alt: 0 });
+    }
+    ops
+}
+fn plan_json(p: &Plan) -> Value {
+    json!(p.iter().map(|o| json!([o.dst, o.src, o.alt])).collect::<Vec<_>>())
+}
+
+#[derive(Clone, Debug)]
+enum StepOut {
+    Ok { flag: bool, obs: Obs },
+    /// The read-back itself was self-inconsistent / held foreign data.
+    BadObs(String),
+    Panic(String),
+}
+
+/// Run one plan on the real implementation `F`. Returns the initial observation of every slot that
+/// gets built as a destination, then one `StepOut` per op (stops at the first non-Ok).
+fn run_plan<F: Imp>(states: &[St], plan: &Plan) -> (Vec<(usize, Result<Obs, String>)>, Vec<StepOut>) {
+    let mut slots: Vec<Option<F>> = states.iter().map(|_| None).collect();
+    let mut consumed = vec![false; states.len()];
+    let mut init = vec![];
+    let mut out = vec![];
+    for op in plan {
+        assert!(op.dst != op.src && !consumed[op.dst] && !consumed[op.src], "malformed plan");
+        if slots[op.dst].is_none() {
+            match catch(|| {
+                let f = F::build(&states[op.dst]);
+                let o = f.observe();
+                (f, o)
+            }) {
+                Ok((f, o)) => {
+                    init.push((op.dst, o));
+                    slots[op.dst] = Some(f);
+                }
+                Err(p) => {
+                    out.push(StepOut::Panic(format!("constructing replica {}: {p}", op.dst)));
+                    return (init, out);
+                }
+            }
+        }
+        consumed[op.src] = true;
+        let src_built = slots[op.src].take();
+        let dst = slots[op.dst].as_mut().unwrap();
+        let r = catch(|| {
+            let flag = match src_built {
+                Some(s) => dst.merge_same(s),
+                None if op.alt == 0 => dst.merge_same(F::build(&states[op.src])),
+                None => dst.merge_alt(&states[op.src], op.alt),
+            };
+            (flag, dst.observe())
+        });
+        match r {
+            Ok((flag, Ok(obs))) => out.push(StepOut::Ok { flag, obs }),
+            Ok((_, Err(e))) => {
+                out.push(StepOut::BadObs(e));
+                return (init, out);
+            }
+            Err(p) => {
+                out.push(StepOut::Panic(p));
+                return (init, out);
+            }
+        }
+    }
+    (init, out)
+}
+
+type Runner = fn(&[St], &Plan) -> (Vec<(usize, Result<Obs, String>)>, Vec<StepOut>);
+
+fn impls(kind: VKind) -> Vec<(String, Runner)> {
+    fn e<F: Imp>() -> (String, Runner) {
+        (F::name(), run_plan::<F>)
+    }
+    match kind {
+        VKind::Unit => vec![
+            e::<SetF<u64, HashSet<u64>>>(),
+            e::<SetF<String, HashSet<String>>>(),
+            e::<SetF<u64, RoaringTombstoneSet>>(),
+            e::<SetF<String, FstTombstoneSet<String>>>(),
+        ],
+        VKind::Max => vec![
+            e::<MapF<u64, HashSet<u64>, Max<u8>>>(),
+            e::<MapF<String, HashSet<String>, Max<u8>>>(),
+            e::<MapF<u64, RoaringTombstoneSet, Max<u8>>>(),
+            e::<MapF<String, FstTombstoneSet<String>, Max<u8>>>(),
+        ],
+        VKind::SetU => vec![
+            e::<MapF<u64, HashSet<u64>, SetUnionHashSet<u8>>>(),
+            e::<MapF<String, HashSet<String>, SetUnionHashSet<u8>>>(),
+            e::<MapF<u64, RoaringTombstoneSet, SetUnionHashSet<u8>>>(),
+            e::<MapF<String, FstTombstoneSet<String>, SetUnionHashSet<u8>>>(),
+        ],
+    }
+}
+
+// ---------------------------------------------------------------------------------------------
+// The oracle for one group = (kind, states, plans); every plan merges *all* replicas.
+
+struct Group<'a> {
+    kind: VKind,
+    fam: &'a str,
+    states: &'a [St],
+    plans: &'a [Plan],
+}
+
+fn case_json(g: &Group, plans: &[&Plan]) -> Value {
+    json!({
+        "engine": ENGINE, "mode": "history", "family": g.fam, "kind": kind_name(g.kind),
+        "states": g.states.iter().map(|s| s.json()).collect::<Vec<_>>(),
+        "plans": plans.iter().map(|p| plan_json(p)).collect::<Vec<_>>(),
+    })
+}
+
+/// Is deletion actually at work: some item is deleted in one replica and live in another?
+fn deletion_matters(states: &[St]) -> bool {
+    let dead: u8 = states.iter().fold(0, |a, s| a | s.dead());
+    states.iter().any(|s| s.live & dead != 0)
+}
+
+fn check_group(rep: &mut Reporter, g: &Group) {
+    let kind = g.kind;
+    let all_valid = g.states.iter().all(|s| s.valid());
+    let nontriv = deletion_matters(g.states);
+    let imps = impls(kind);
+    // per plan: the reference trace of the first backend, for the cross-backend clause
+    let mut reference: Vec<Option<(String, Vec<(bool, BTreeMap<usize, u8>, BTreeSet<usize>)>)>> = vec![None; g.plans.len()];
+    for (iname, runner) in &imps {
+        let mut first_final: Option<(usize, BTreeMap<usize, u8>, BTreeSet<usize>)> = None;
+        for (pi, plan) in g.plans.iter().enumerate() {
+            let case = || case_json(g, &[plan]);
+            let (init, steps) = runner(g.states, plan);
+            rep.count(&format!("plans:{iname}"));
+            // freshly constructed replicas must show exactly what was put in
+            let mut ok = true;
+            for (slot, o) in &init {
+                rep.eval();
+                let st = &g.states[*slot];
+                let want = Obs { live: bits(st.live).map(|i| (i, st.vals[i])).collect(), tombs: bits(st.tombs).collect() };
+                match o {
+                    Err(e) => {
+                        rep.violation(&format!("C05|{iname}|constructed-replica-reads-back-inconsistent"), &format!("replica {slot}: {e}"), case());
+                        ok = false;
+                    }
+                    Ok(o) if *o != want => {
+                        rep.violation(
+                            &format!("C05|{iname}|constructed-replica-differs-from-input"),
+                            &format!("replica {slot} built from {} reads back as {}", st.json(), o.json()),
+                            case(),
+                        );
+                        ok = false;
+                    }
+                    Ok(_) => {}
+                }
+            }
+            if !ok {
+                continue;
+            }
+            // lineage bookkeeping per slot
+            let mut incl: Vec<BTreeSet<usize>> = (0..g.states.len()).map(|i| [i].into()).collect();
+            let mut dead: Vec<u8> = g.states.iter().map(|s| s.dead()).collect();
+            let mut trace = vec![];
+            let mut complete = true;
+            for (k, (op, so)) in plan.iter().zip(steps.iter()).enumerate() {
+                rep.eval();
+                let (flag, obs) = match so {
+                    StepOut::Panic(p) => {
+                        rep.violation(&format!("C05|{iname}|panic"), &format!("step {k} ({}<-{}): {p}", op.dst, op.src), case());
+                        complete = false;
+                        break;
+                    }
+                    StepOut::BadObs(e) => {
+                        rep.violation(&format!("C05|{iname}|state-reads-back-inconsistent"), &format!("after step {k} ({}<-{}): {e}", op.dst, op.src), case());
+                        complete = false;
+                        break;
+                    }
+                    StepOut::Ok { flag, obs } => (*flag, obs),
+                };
+                let before = model_of(kind, g.states, &incl[op.dst]);
+                let gone = dead[op.dst] | dead[op.src];
+                let src_incl = incl[op.src].clone();
+                incl[op.dst].extend(src_incl);
+                let here = format!("after step {k} ({}<-{}, replicas merged so far {:?})", op.dst, op.src, incl[op.dst]);
+                // (1) nothing deleted in any prefix of either lineage is live again — required of every history
+                if let Some(x) = obs.live.keys().find(|x| gone >> **x & 1 == 1) {
+                    rep.violation(
+                        &format!("C05|{iname}|deleted-item-live-again"),
+                        &format!("{here}: item {x} was tombstoned and gone earlier, now live; state {}", obs.json()),
+                        case(),
+                    );
+                    complete = false;
+                    break;
+                }
+                dead[op.dst] = gone | obs.tombs.iter().filter(|x| !obs.live.contains_key(x)).fold(0u8, |a, x| a | 1 << x);
+                if all_valid {
+                    let want = model_of(kind, g.states, &incl[op.dst]);
+                    // (2) invariant
+                    if let Some(x) = obs.live.keys().find(|x| obs.tombs.contains(x)) {
+                        rep.violation(&format!("C05|{iname}|item-both-live-and-tombstoned"), &format!("{here}: item {x}; state {}", obs.json()), case());
+                        complete = false;
+                        break;
+                    }
+                    // (3) tombstones = union
+                    if obs.tombs != want.tombs {
+                        rep.violation(
+                            &format!("C05|{iname}|tombstones-differ-from-union"),
+                            &format!("{here}: tombstones {:?}, union of inputs {:?}", obs.tombs, want.tombs),
+                            case(),
+                        );
+                        complete = false;
+                        break;
+                    }
+                    // (4) live = ⋃live − ⋃tombs
+                    let nl = obs.norm_live();
+                    if nl != want.live {
+                        rep.violation(
+                            &format!("C05|{iname}|live-differs-from-union-minus-tombstones"),
+                            &format!("{here}: live {:?}, model {:?}", nl, want.live),
+                            case(),
+                        );
+                        complete = false;
+                        break;
+                    }
+                    // (5) changed flag == model state changed
+                    let changed = want != before;
+                    rep.count(if flag { "flag_true" } else { "flag_false" });
+                    if flag != changed {
+                        rep.violation(
+                            &format!("C05|{iname}|changed-flag-wrong|returned-{flag}"),
+                            &format!("{here}: merge returned {flag}, model state {}", if changed { "changed" } else { "did not change" }),
+                            case(),
+                        );
+                    }
+                    trace.push((flag, nl, obs.tombs.clone()));
+                }
+            }
+            if !complete || !all_valid {
+                continue;
+            }
+            // (6) all orders give the same final result
+            if let Some((_, fl, ft)) = trace.last().map(|(f, l, t)| (f, l.clone(), t.clone())) {
+                rep.eval();
+                match &first_final {
+                    None => first_final = Some((pi, fl, ft)),
+                    Some((p0, l0, t0)) => {
+                        if *l0 != fl || *t0 != ft {
+                            rep.violation(
+                                &format!("C05|{iname}|result-depends-on-merge-order"),
+                                &format!("plan A ends in live {l0:?} tombs {t0:?}; plan B in live {fl:?} tombs {ft:?}"),
+                                case_json(g, &[&g.plans[*p0], plan]),
+                            );
+                        }
+                    }
+                }
+            }
+            // (7) backends interchangeable
+            rep.eval();
+            match &reference[pi] {
+                None => reference[pi] = Some((iname.clone(), trace)),
+                Some((rname, rtrace)) => {
+                    if *rtrace != trace {
+                        rep.violation(
+                            &format!("C05|{}|backends-disagree|{rname} vs {iname}", kind_name(kind)),
+                            &format!("(flag, live, tombs) per step: {rname}: {rtrace:?}; {iname}: {trace:?}"),
+                            case(),
+                        );
+                    }
+                }
+            }
+        }
+    }
+    rep.count(if all_valid { "groups_valid_inputs" } else { "groups_invalid_inputs" });
+    if nontriv {
+        rep.count(if all_valid { "groups_valid_with_effective_deletion" } else { "groups_invalid_with_effective_deletion" });
+        let mut canon: Vec<St> = g.states.to_vec();
+        canon.sort();
+        rep.nontrivial(hash_of(&(kind, canon)));
+        rep.sample(|| json!({"kind": kind_name(kind), "family": g.fam, "states": g.states.iter().map(|s| s.json()).collect::<Vec<_>>(), "plans": g.plans.len()}));
+    }
+}
+
+// ---------------------------------------------------------------------------------------------
+// partial_cmp / == of the HashSet-backed types (the Roaring and FST backends implement neither
+// `cc_traits::Iter` nor `Get`, so the crate gives them no PartialOrd/PartialEq).
+
+trait CmpImp: Imp {
+    fn cmp(a: &Self, b: &Self) -> (Option<Ordering>, bool);
+}
+impl<I: Item> CmpImp for SetF<I, HashSet<I>> {
+    fn cmp(a: &Self, b: &Self) -> (Option<Ordering>, bool) {
+        (a.0.partial_cmp(&b.0), a.0 == b.0)
+    }
+}
+impl<I: Item, V: Val> CmpImp for MapF<I, HashSet<I>, V> {
+    fn cmp(a: &Self, b: &Self) -> (Option<Ordering>, bool) {
+        (a.0.partial_cmp(&b.0), a.0 == b.0)
+    }
+}
+
+fn ord_name(o: Option<Ordering>) -> &'static str {
+    match o {
+        None => "None",
+        Some(Ordering::Less) => "Less",
+        Some(Ordering::Equal) => "Equal",
+        Some(Ordering::Greater) => "Greater",
+    }
+}
+
+fn check_cmp_one<F: CmpImp>(rep: &mut Reporter, kind: VKind, a: &St, b: &St) {
+    debug_assert!(a.valid() && b.valid());
+    let iname = F::name();
+    let case = || json!({"engine": ENGINE, "mode": "cmp", "kind": kind_name(kind), "a": a.json(), "b": b.json()});
+    let want = match (model_le(kind, a, b), model_le(kind, b, a)) {
+        (true, true) => Some(Ordering::Equal),
+        (true, false) => Some(Ordering::Less),
+        (false, true) => Some(Ordering::Greater),
+        (false, false) => None,
+    };
+    rep.eval();
+    match catch(|| F::cmp(&F::build(a), &F::build(b))) {
+        Err(p) => rep.violation(&format!("C05|{iname}|partial_cmp-or-eq-panics"), &p, case()),
+        Ok((got, eq)) => {
+            rep.count(&format!("cmp_{}", ord_name(want)));
+            if got != want {
+                rep.violation(
+                    &format!("C05|{iname}|partial_cmp-wrong|{}-for-{}", ord_name(got), ord_name(want)),
+                    &format!("partial_cmp gives {}, merge-induced order is {}", ord_name(got), ord_name(want)),
+                    case(),
+                );
+            }
+            if eq != (want == Some(Ordering::Equal)) {
+                rep.violation(&format!("C05|{iname}|eq-wrong|returned-{eq}"), &format!("== gives {eq}, model order is {}", ord_name(want)), case());
+            }
+        }
+    }
+}
+
+fn check_cmp(rep: &mut Reporter, kind: VKind, a: &St, b: &St) {
+    match kind {
+        VKind::Unit => {
+            check_cmp_one::<SetF<u64, HashSet<u64>>>(rep, kind, a, b);
+            check_cmp_one::<SetF<String, HashSet<String>>>(rep, kind, a, b);
+        }
+        VKind::Max => {
+            check_cmp_one::<MapF<u64, HashSet<u64>, Max<u8>>>(rep, kind, a, b);
+            check_cmp_one::<MapF<String, HashSet<String>, Max<u8>>>(rep, kind, a, b);
+        }
+        VKind::SetU => {
+            check_cmp_one::<MapF<u64, HashSet<u64>, SetUnionHashSet<u8>>>(rep, kind, a, b);
+            check_cmp_one::<MapF<String, HashSet<String>, SetUnionHashSet<u8>>>(rep, kind, a, b);
+        }
+    }
+    if a != b {
+        rep.nontrivial(hash_of(&("cmp", kind, a, b)));
+    }
+}
+
+// ---------------------------------------------------------------------------------------------
+// State enumeration / generation
+
+/// Set states over items 0..n: per item 2 bits (0 absent, 1 live, 2 tombstoned, 3 both). 4^n states.
+fn set_state(n: usize, code: usize) -> St {
+    let mut st = St { live: 0, tombs: 0, vals: [0; MAXD] };
+    for i in 0..n {
+        let s = code >> (2 * i) & 3;
+        if s & 1 != 0 {
+            st.live |= 1 << i;
+            st.vals[i] = 1;
+        }
+        if s & 2 != 0 {
+            st.tombs |= 1 << i;
+        }
+    }
+    st
+}
+/// Map states over keys 0..n with value codes 0..nv: per key 2+2nv choices
+/// (absent, tombstoned, live(v), live(v)+tombstoned).
+fn map_state(n: usize, nv: usize, mut code: usize) -> St {
+    let per = 2 + 2 * nv;
+    let mut st = St { live: 0, tombs: 0, vals: [0; MAXD] };
+    for i in 0..n {
+        let s = code % per;
+        code /= per;
+        match s {
+            0 => {}
+            1 => st.tombs |= 1 << i,
+            s => {
+                let s = s - 2;
+                st.live |= 1 << i;
+                st.vals[i] = (s % nv) as u8;
+                if s >= nv {
+                    st.tombs |= 1 << i;
+                }
+            }
+        }
+    }
+    st
+}
+
+fn random_state(rng: &mut Rng, kind: VKind, n: usize, allow_invalid: bool) -> St {
+    let mut st = St { live: 0, tombs: 0, vals: [0; MAXD] };
+    let (p_live, p_tomb) = (20 + rng.below(40), 10 + rng.below(30));
+    for i in 0..n {
+        let r = rng.below(100);
+        let live = r < p_live;
+        let tomb = if live { allow_invalid && rng.chance(1, 4) } else { r < p_live + p_tomb };
+        if live {
+            st.live |= 1 << i;
+            st.vals[i] = match kind {
+                VKind::Unit => 1,
+                _ => rng.below(4) as u8,
+            };
+        }
+        if tomb {
+            st.tombs |= 1 << i;
+        }
+    }
+    st
+}
+
+fn permutations(n: usize) -> Vec<Vec<usize>> {
+    fn go(cur: &mut Vec<usize>, used: &mut Vec<bool>, n: usize, out: &mut Vec<Vec<usize>>) {
+        if cur.len() == n {
+            out.push(cur.clone());
+            return;
+        }
+        for i in 0..n {
+            if !used[i] {
+                used[i] = true;
+                cur.push(i);
+                go(cur, used, n, out);
+                cur.pop();
+                used[i] = false;
+            }
+        }
+    }
+    let mut out = vec![];
+    go(&mut vec![], &mut vec![false; n], n, &mut out);
+    out
+}
+
+/// Every permutation of the multiset that yields a distinct sequence of states.
+fn distinct_perms(states: &[St], perms: &[Vec<usize>]) -> Vec<Vec<usize>> {
+    let mut seen = HashSet::new();
+    perms.iter().filter(|p| seen.insert(p.iter().map(|&i| states[i]).collect::<Vec<_>>())).cloned().collect()
+}
+
+/// All multisets of size `k` over `universe`, each with every distinct ordering (sequential fold) and
+/// the given other-representation choices.
+fn exhaustive(rep: &mut Reporter, kind: VKind, fam: &str, universe: &[St], k: usize, alt_sets: &[&[u8]]) -> u64 {
+    let perms = permutations(k);
+    let mut idx = vec![0usize; k];
+    let mut groups = 0u64;
+    loop {
+        let states: Vec<St> = idx.iter().map(|&i| universe[i]).collect();
+        let mut plans = vec![];
+        for p in distinct_perms(&states, &perms) {
+            for a in alt_sets {
+                plans.push(seq_plan(&p, a));
+            }
+        }
+        check_group(rep, &Group { kind, fam, states: &states, plans: &plans });
+        groups += 1;
+        // next non-decreasing index vector
+        let mut j = k;
+        while j > 0 && idx[j - 1] == universe.len() - 1 {
+            j -= 1;
+        }
+        if j == 0 {
+            return groups;
+        }
+        let v = idx[j - 1] + 1;
+        for x in idx.iter_mut().skip(j - 1) {
+            *x = v;
+        }
+    }
+}
+
+// ---------------------------------------------------------------------------------------------
+
+fn replay(rep: &mut Reporter, case: &Value) {
+    let kind = kind_of_name(case["kind"].as_str().unwrap_or("")).expect("kind");
+    match case["mode"].as_str().unwrap_or("") {
+        "history" => {
+            let states: Vec<St> = case["states"].as_array().expect("states").iter().map(St::from_json).collect();
+            let plans: Vec<Plan> = case["plans"]
+                .as_array()
+                .expect("plans")
+                .iter()
+                .map(|p| {
+                    p.as_array()
+                        .unwrap()
+                        .iter()
+                        .map(|o| Op { dst: o[0].as_u64().unwrap() as usize, src: o[1].as_u64().unwrap() as usize, alt: o[2].as_u64().unwrap() as u8 })
+                        .collect()
+                })
+                .collect();
+            check_group(rep, &Group { kind, fam: case["family"].as_str().unwrap_or("replay"), states: &states, plans: &plans });
+        }
+        "cmp" => check_cmp(rep, kind, &St::from_json(&case["a"]), &St::from_json(&case["b"])),
+        m => panic!("unknown replay mode {m}"),
+    }
+}
+
 fn main() {
-    let args = vcommon::Args::parse();
+    let args = Args::parse();
     if args.prop == "NONE" {
         return;
     }
-    eprintln!("not implemented yet");
-    std::process::exit(3);
+    assert_eq!(args.prop, "C05", "mon_tomb serves C05");
+    let mut rep = Reporter::new("C05", args.seed);
+    if let Some(case) = args.replay_case() {
+        replay(&mut rep, &case);
+        rep.finish("replay", false);
+        return;
+    }
+    let mut rng = args.rng();
+    let tier = args.tier;
+    let kinds = [VKind::Unit, VKind::Max, VKind::SetU];
+    let same: &[u8] = &[0];
+    let vec_alt: &[u8] = &[1];
+    let delta_alt: &[u8] = &[2];
+
+    // (A) exhaustive — sets: all 64 states over 3 items
+    let set_states: Vec<St> = (0..64).map(|c| set_state(3, c)).collect();
+    let mut exh = BTreeMap::new();
+    if tier != Tier::Miri {
+        exh.insert("set: multisets of 2 of 64 states", exhaustive(&mut rep, VKind::Unit, "set-exh2", &set_states, 2, &[same, vec_alt, delta_alt]));
+        let valid27: Vec<St> = set_states.iter().copied().filter(|s| s.valid()).collect();
+        if tier == Tier::Quick {
+            exh.insert("set: multisets of 3 of the 27 valid states", exhaustive(&mut rep, VKind::Unit, "set-exh3", &valid27, 3, &[same]));
+        } else {
+            exh.insert("set: multisets of 3 of 64 states", exhaustive(&mut rep, VKind::Unit, "set-exh3", &set_states, 3, &[same, delta_alt]));
+        }
+        // maps: 3 keys x value codes {0(bottom),1,2}: 8^3 = 512 states, pairs
+        for kind in [VKind::Max, VKind::SetU] {
+            let ms: Vec<St> = (0..512).map(|c| map_state(3, 3, c)).collect();
+            let alts: &[&[u8]] = if tier == Tier::Quick { &[same, delta_alt] } else { &[same, vec_alt, delta_alt] };
+            exh.insert(
+                if kind == VKind::Max { "map-max: multisets of 2 of 512 states" } else { "map-setunion: multisets of 2 of 512 states" },
+                exhaustive(&mut rep, kind, "map-exh2", &ms, 2, alts),
+            );
+            if tier == Tier::Thorough {
+                // 2 keys x all four value codes: 10^2 = 100 states, triples
+                let ms2: Vec<St> = (0..100).map(|c| map_state(2, 4, c)).collect();
+                exh.insert(
+                    if kind == VKind::Max { "map-max: multisets of 3 of 100 states" } else { "map-setunion: multisets of 3 of 100 states" },
+                    exhaustive(&mut rep, kind, "map-exh3", &ms2, 3, &[same]),
+                );
+            }
+        }
+    } else {
+        let few: Vec<St> = [1usize, 2, 6, 9, 24, 33].iter().map(|&c| set_state(3, c)).collect();
+        exh.insert("set: multisets of 2 of 6 states", exhaustive(&mut rep, VKind::Unit, "set-exh2", &few, 2, &[same, delta_alt]));
+    }
+    rep.extra("exhaustive_groups", json!(exh));
+
+    // (B) random histories: R replicas, domain of 3..=8 items; sequential folds in many orders + tree-shaped merges
+    let replicas = args.budget(4, 5, 3);
+    let n_hist = args.budget(5_000, 50_000, 6);
+    let all_perms = permutations(replicas);
+    for h in 0..n_hist {
+        let kind = kinds[h % 3];
+        let n = match tier {
+            Tier::Thorough => 6 + rng.below(3),
+            _ => 3 + rng.below(6),
+        };
+        let invalid = h % 5 == 4;
+        let mut states: Vec<St> = (0..replicas).map(|_| random_state(&mut rng, kind, n, invalid)).collect();
+        if rng.chance(1, 4) {
+            // a duplicated replica (re-delivery)
+            let (a, b) = (rng.below(replicas), rng.below(replicas));
+            states[a] = states[b];
+        }
+        let alts: Vec<u8> = (0..replicas).map(|_| rng.below(3) as u8).collect();
+        let mut perms = distinct_perms(&states, &all_perms);
+        let cap = args.budget(24, 20, 3);
+        if perms.len() > cap {
+            rng.shuffle(&mut perms);
+            perms.truncate(cap);
+        }
+        let mut plans: Vec<Plan> = perms.iter().map(|p| seq_plan(p, &alts)).collect();
+        for _ in 0..2 {
+            let p = rng.choose(&perms).clone();
+            plans.push(tree_plan(&p, &alts));
+        }
+        check_group(&mut rep, &Group { kind, fam: if invalid { "random-invalid-inputs" } else { "random" }, states: &states, plans: &plans });
+    }
+
+    // (C) order and equality of the HashSet-backed types against the merge-induced order
+    if tier != Tier::Miri {
+        let valid_sets: Vec<St> = set_states.iter().copied().filter(|s| s.valid()).collect();
+        for a in &valid_sets {
+            for b in &valid_sets {
+                check_cmp(&mut rep, VKind::Unit, a, b);
+            }
+        }
+        for kind in [VKind::Max, VKind::SetU] {
+            let ms: Vec<St> = (0..512).map(|c| map_state(3, 3, c)).filter(|s| s.valid()).collect();
+            for a in &ms {
+                for b in &ms {
+                    check_cmp(&mut rep, kind, a, b);
+                }
+            }
+        }
+    }
+    for h in 0..args.budget(3_000, 60_000, 5) {
+        let kind = kinds[h % 3];
+        let n = 3 + rng.below(6);
+        let a = random_state(&mut rng, kind, n, false);
+        let mut b = random_state(&mut rng, kind, n, false);
+        if rng.chance(1, 2) {
+            // make comparable pairs common: b := a plus a few extra facts
+            b = a;
+            for _ in 0..rng.below(3) {
+                let i = rng.below(n);
+                if rng.chance(1, 2) {
+                    b.tombs |= 1 << i;
+                    b.live &= !(1 << i);
+                    b.vals[i] = 0;
+                } else if b.tombs >> i & 1 == 0 {
+                    b.live |= 1 << i;
+                    b.vals[i] = match kind {
+                        VKind::Unit => 1,
+                        VKind::Max => b.vals[i].max(rng.below(4) as u8),
+                        VKind::SetU => b.vals[i] | rng.below(4) as u8,
+                    };
+                }
+            }
+        }
+        if rng.chance(1, 2) { check_cmp(&mut rep, kind, &a, &b) } else { check_cmp(&mut rep, kind, &b, &a) }
+    }
+
+    // minimum observation
+    let miri = tier == Tier::Miri;
+    for kind in kinds {
+        for (iname, _) in impls(kind) {
+            let c = rep.counter(&format!("plans:{iname}"));
+            rep.require(c >= if miri { 1 } else { 1_000 }, &format!("fewer than 1000 merge plans run on {iname}"));
+        }
+    }
+    rep.require(miri || rep.counter("groups_valid_with_effective_deletion") >= 1_000, "fewer than 1000 valid-input histories where a tombstone deletes another replica's live item");
+    rep.require(miri || rep.counter("groups_invalid_with_effective_deletion") >= 200, "fewer than 200 invalid-input histories with an effective deletion");
+    rep.require(miri || (rep.counter("flag_true") >= 1_000 && rep.counter("flag_false") >= 1_000), "changed flag not seen both ways 1000 times");
+    for o in ["None", "Less", "Equal", "Greater"] {
+        rep.require(miri || rep.counter(&format!("cmp_{o}")) >= 100, &format!("fewer than 100 comparisons whose model answer is {o}"));
+    }
+    rep.finish(
+        "Replica states (live,tombs) over an index domain mapped to u64 items (Roaring, HashSet) and strings (FST, HashSet); set variant and map variants with Max<u8> / SetUnion<HashSet<u8>> values incl. bottom values. Exhaustive: every multiset of 2 (quick: also 3 of the valid states; thorough: 3 of all) of all 64 set states over 3 items, every multiset of 2 of all 512 map states over 3 keys x 3 value codes (thorough: + 3 of 100 states over 2 keys x 4 codes), each in every distinct order, with same-type / Vec-backed / singleton-delta `other` operands; random 4- (thorough 5-) replica histories over 3..8 items in up to 24 (20) orders plus tree-shaped merge plans, one fifth with invariant-violating inputs (only the no-resurrection clause is required of those). After every merge as_reveal_ref() is read back (iteration, len and contains must agree) and compared with live=U live - U tombs, tombs=U tombs, disjointness, changed flag, order-independence and cross-backend equality; partial_cmp/== of the HashSet-backed types are compared with the merge-induced order on all pairs of valid states. Non-trivial history = distinct multiset of states in which some item is deleted (tombstoned, not live) in one replica and live in another; non-trivial comparison = distinct ordered pair of different states.",
+        true,
+    );
 }
